@@ -13,6 +13,7 @@ package vrt
 
 import (
 	"fmt"
+	"reflect"
 	"runtime"
 	"sort"
 	"strconv"
@@ -286,3 +287,72 @@ func (s *Sched) TraceString() string {
 // FreeWait is what a shim lock does in Free mode while the lock is held: a virtual sleep, so
 // that the goroutine is durably blocked and the bubble can make progress.
 func FreeWait() { time.Sleep(time.Microsecond) }
+
+// ---- map iteration order as an explorer choice ----
+
+var orderChooser atomic.Value // *orderHolder
+
+type orderHolder struct{ c Chooser }
+
+// SetOrderChooser installs (nil: removes) the chooser that decides map visiting orders at the
+// sites rewritten by vinstr.  Without one the order is the sorted key order (deterministic).
+func SetOrderChooser(c Chooser) {
+	if c == nil {
+		orderChooser.Store((*orderHolder)(nil))
+		return
+	}
+	orderChooser.Store(&orderHolder{c})
+}
+
+// StringKeys returns the keys of a map[string]T in the order chosen by the explorer: every
+// permutation for up to 3 keys, every rotation and its reversal above that.
+func StringKeys(m interface{}, site string) []string {
+	rv := reflect.ValueOf(m)
+	keys := make([]string, 0, rv.Len())
+	for _, k := range rv.MapKeys() {
+		keys = append(keys, k.String())
+	}
+	sort.Strings(keys)
+	h, _ := orderChooser.Load().(*orderHolder)
+	n := len(keys)
+	if h == nil || n < 2 {
+		return keys
+	}
+	if n <= 3 {
+		perms := permutations(n)
+		p := perms[h.c.Choose(len(perms), "order:"+site)]
+		out := make([]string, n)
+		for i, j := range p {
+			out[i] = keys[j]
+		}
+		return out
+	}
+	k := h.c.Choose(2*n, "order:"+site)
+	out := make([]string, n)
+	for i := range out {
+		out[i] = keys[(i+k%n)%n]
+	}
+	if k >= n {
+		for i, j := 0, n-1; i < j; i, j = i+1, j-1 {
+			out[i], out[j] = out[j], out[i]
+		}
+	}
+	return out
+}
+
+func permutations(n int) [][]int {
+	if n == 1 {
+		return [][]int{{0}}
+	}
+	var out [][]int
+	for _, p := range permutations(n - 1) {
+		for pos := 0; pos <= len(p); pos++ {
+			q := make([]int, 0, n)
+			q = append(q, p[:pos]...)
+			q = append(q, n-1)
+			q = append(q, p[pos:]...)
+			out = append(out, q)
+		}
+	}
+	return out
+}
